@@ -14,7 +14,13 @@ const prec = 320
 type bv [3]*big.Float
 
 func nf() *big.Float            { return new(big.Float).SetPrec(prec) }
-func bf(x float64) *big.Float   { return nf().SetFloat64(x) }
+// NaN/Inf from the implementation become 1e300 so that every comparison against the oracle fails loudly
+func bf(x float64) *big.Float {
+	if x != x || x > 1e300 || x < -1e300 {
+		return nf().SetFloat64(1e300)
+	}
+	return nf().SetFloat64(x)
+}
 func badd(a, b *big.Float) *big.Float { return nf().Add(a, b) }
 func bsub(a, b *big.Float) *big.Float { return nf().Sub(a, b) }
 func bmul(a, b *big.Float) *big.Float { return nf().Mul(a, b) }
